@@ -384,3 +384,7 @@ impl<'a> Serializer<'a> {
         Ok(())
     }
 }
+
+#[cfg(kani)]
+#[path = "/verif/harness/core/serializer.rs"]
+mod verif;
